@@ -29,7 +29,7 @@ where
     /// # Arguments
     ///
     /// * `group` - The group metadata from storage
-    /// * `mls_epoch` - The current epoch from the MLS group (authoritative source)
+    /// * `mls_epoch` - The epoch the message was sent in, as authenticated by the MLS layer
     /// * `event` - The wrapper Nostr event containing the encrypted message
     /// * `application_message` - The decrypted MLS application message
     /// * `sender_credential` - The MLS credential of the sender for author verification
